@@ -808,3 +808,7 @@ def run(rep, program: Program, tier: str) -> None:
     from . import c19
 
     rep.isolate(c19.rule_r1, rep, program, prop=PROP, rule="R10", only_inplace=True)
+    # integer-valued parameters are legal: members must use dtype-promoting arithmetic (shared with C11-R5)
+    from . import c11
+
+    rep.isolate(c11.rule_r5, rep, program, prop=PROP, rule="R11")
